@@ -651,12 +651,22 @@ def alphabet_b(tier):
     return al
 
 
+QUICK3 = [('ok', 1),
+          ('unp', 'lambda', ''), ('unp', 'tlock', 'l'), ('unp', 'block', 'dt'),
+          ('unp', 'reduce', 'tld'), ('unp', 'lambda', 'tld'),
+          ('unp', 'reduce', ''), ('raise-unp',)] + \
+    [('raise', c, 2, 2) for c in CLASSES]
+
+
 def cases_b_seq(tier):
+    """All sequences of length 1..3 over the tier's alphabet (quick: length 3
+    over the 16-symbol sub-alphabet QUICK3, lengths 1..2 over all 26)."""
     import itertools
     al = alphabet_b(tier)
     out = []
     for n in (1, 2, 3):
-        out += [list(s) for s in itertools.product(al, repeat=n)]
+        a = QUICK3 if (n == 3 and tier != 'thorough') else al
+        out += [list(s) for s in itertools.product(a, repeat=n)]
     return out
 
 
@@ -733,7 +743,9 @@ def main(tier, seed, only=None):
                          else PICKLERS)),
         unpicklable_leaves=LEAVES, nesting='all list/dict/tuple nestings of '
         'depth 0..3 (40 shapes)', depths_b=DEPTHS_B,
-        sequence_alphabet=len(alphabet_b(tier)), sequence_lengths=[1, 2, 3])
+        sequence_alphabet=len(alphabet_b(tier)), sequence_lengths=[1, 2, 3],
+        length3_alphabet=len(alphabet_b(tier)) if tier == 'thorough'
+        else len(QUICK3))
     rep.assume(
         'the worker is driven sequentially as one virtual process over '
         'scripted queues whose put pickles with ForkingPickler.dumps before '
